@@ -37,7 +37,9 @@
       formula n_i - 2<x_i,x_j> + n_j = |x_i - x_j|^2 as long as the norms belong to the points, which flips
       preserve (they swap points AND norms); PartlyPrecomputedMatrix constructor (row count from the cache size
       in bytes with the integer divisions, runtime check, division by zero for an empty base), memory bound
-      rows * rowBytes <= cacheSize, every entry / row = base entry.
+      rows * rowBytes <= cacheSize, every entry / row = base entry (stated over ANY base operation record;
+      the class has neither flipColumnsAndRows nor row(k,start,end,storage), so it cannot itself be the Matrix
+      parameter of CachedMatrix / PrecomputedMatrix and is not an instance of the flip interface).
 
    COMPARED on every run (extracted model = C++, same generated inputs, exact): stream "cache" (A), "derived" (B),
    "comp" (C, D, E: CachedMatrix<Base>/PrecomputedMatrix<Base> for all seven classes, capacities N, 2N, N^2,
